@@ -380,8 +380,8 @@ func ReadWeatherCSV(VWDAT string, startyear int, g *GlobalVarsMain, s *WeatherDa
 		err := make([]error, 10)
 		isodate := tokens[h[isodate]]
 		d.datetime, err[7] = time.Parse("2006-01-02", isodate)
-		// skip years before start year
-		if d.datetime.Year() < startyear {
+		// skip years before start year (a date that does not parse is an error, not an early year)
+		if err[7] == nil && d.datetime.Year() < startyear {
 			continue
 		}
 		d.wind, err[0] = strconv.ParseFloat(tokens[h[wind]], 64)
@@ -512,11 +512,8 @@ func ReadWeatherCZ(VWDAT string, startyear int, g *GlobalVarsMain, s *WeatherDat
 		doydate := tokens[h[doydate]]
 		//time = yyyydoy
 		d.datetime, err[0] = time.Parse("2006002", doydate)
-		// skip years before start year
-		if d.datetime.Year() < startyear {
-			continue
-		}
-		if d.datetime.Year() < startyear {
+		// skip years before start year (a date that does not parse is an error, not an early year)
+		if err[0] == nil && d.datetime.Year() < startyear {
 			continue
 		}
 
